@@ -246,6 +246,14 @@ def run(tier, seed):
         ok, blog = coq_build(["props/C16.vo", "corr/C16corr.vo", "corr/C16fault.vo"])
         t_phase.append(time.time())
         proofs_ok, pa = proof_obligations(work, res, "C16.v", ok, blog)
+        if ok:
+            # the ladder of model/Seq.v serve (redirect, TLS refusal, then the gate and the balancer) proved equal to
+            # serviceRequestWithTarget / shouldRedirectToHTTPS as the source has them on this run
+            import gentie
+            g_ok, g_log = gentie.gen_tie(work, res, only=("gen_service_ladder",))
+            if not g_ok:
+                proofs_ok = False
+                pa += "\n" + g_log
         gate = m4x.gate_for(["props/C16.v", "corr/C16corr.v"])
         if gate:
             proofs_ok = False
